@@ -97,9 +97,9 @@ def gen_cfg(rng, family=None):
         nets.append(dict(type='maternal'))
         nets.append(dict(type=rng.choice(['random', 'mf']), n_contacts=3, dur=0, duration=2))
     if family == 'pool':
-        grp = ['all', 'male', 'female', 'under30', 'over30']
+        grp = ['all', 'male', 'female', 'under30', 'over30', 'uids_lo', 'uids_hi', 'uids_mid']   # callables and explicit uid lists
         nets.append(dict(type='pool', src=rng.choice(grp), dst=rng.choice(grp), beta=rng.choice([0.0, 0.2, 0.6, 1.0]),
-                         timepar=rng.random() < 0.5, contacts=rng.choice([0.5, 1, 3])))
+                         timepar=rng.random() < 0.5, contacts=rng.choice([0.5, 1, 3]), n_agents=n_agents))
         if rng.random() < 0.6:
             nets.append(dict(type=rng.choice(['random', 'static']), n_contacts=2, dur=0))
     rng.shuffle(nets)
@@ -108,6 +108,8 @@ def gen_cfg(rng, family=None):
     if family == 'maternal':
         dem.append(dict(type='pregnancy', fertility_rate=rng.choice([80, 200]), burnin=True))
         if rng.random() < 0.5: dem.append(dict(type='deaths', death_rate=rng.choice([10, 40])))
+    elif family == 'pool' and any(str(n.get('src', '')).startswith('uids_') or str(n.get('dst', '')).startswith('uids_') for n in nets) and rng.random() < 0.8:
+        dem = [dict(type='deaths', death_rate=rng.choice([40, 80, 150]))]   # fixed uid groups must shed their dead
     elif family == 'churn' or (family in ('pool', 'sexual', 'mixed') and rng.random() < 0.4):
         dem = rng.choice([[dict(type='deaths', death_rate=rng.choice([20, 60]))],
                           [dict(type='births', birth_rate=rng.choice([30, 80])), dict(type='deaths', death_rate=rng.choice([20, 60]))],
@@ -137,6 +139,8 @@ def gen_beta(rng, keys):
     if r < 0.3:
         return dict(kind='scalar', **one())
     entries = {}
+    keys = list(keys)
+    rng.shuffle(keys)   # the user's dict order is independent of the order of sim.networks
     for k in keys:
         q = rng.random()
         if q < 0.25:
@@ -171,12 +175,23 @@ GROUPS = dict(
 )
 
 
+def pool_group(name, n_agents):
+    """ a group given as a callable (re-evaluated each step) or as an explicit uid list fixed at construction """
+    import starsim as ss
+    if name.startswith('uids_'):
+        n = int(n_agents or 40)
+        lo, hi = dict(uids_lo=(0, n // 2), uids_hi=(n // 2, n), uids_mid=(n // 4, 3 * n // 4))[name]
+        return ss.uids(np.arange(lo, hi))
+    return GROUPS[name]
+
+
 def mk_network(n):
     import starsim as ss
     t = n['type']
     if t == 'pool':
         beta = ss.beta(n['beta']) if n.get('timepar') and n['beta'] <= 1 else n['beta']
-        return ss.MixingPool(src=GROUPS[n['src']], dst=GROUPS[n['dst']], beta=beta, contacts=ss.poisson(lam=n['contacts']))
+        return ss.MixingPool(src=pool_group(n['src'], n.get('n_agents')), dst=pool_group(n['dst'], n.get('n_agents')), beta=beta,
+                             contacts=ss.poisson(lam=n['contacts']))
     return impl._network(n, 0)
 
 
